@@ -838,7 +838,7 @@ def _c03_box(stmts):
         elif isinstance(st, list) and st and st[0] == "in":
             out.append(("loop", _c03_box(st[3:])))
         elif isinstance(st, list) and st and st[0] == "tell":
-            out += _c03_box(st[2:])
+            out.append(("tell", _c03_box(st[2:])))
         else:
             out.append("s")
     return out
@@ -853,6 +853,8 @@ def _c03_flat(items):
             o.append("jz"); o += _c03_flat(it[1])
         elif it[0] == "ifelse":
             o.append("jz"); o += _c03_flat(it[1]); o.append("ej"); o += _c03_flat(it[2])
+        elif it[0] == "tell":
+            o.append("tell")         # a tell block is one statement of the list it stands in (its own statements are inside the node)
         else:
             if len(it) > 2:
                 o.append("s")        # `repeat with v = a to b` starts with the separate statement `set v = a`
@@ -878,7 +880,8 @@ def c03_classes(stmts):
             (unless the list is the body of a loop that lies inside an if branch: such a body is visited twice and repaired).
        F25: exit repeat in an else branch, not rescued (= not the second-to-last instruction-level statement of an enclosing branch).
        F126: exit repeat in a then branch, not rescued (not last item of an if without else, not second-to-last statement of an
-             enclosing branch counting the else jump)."""
+             enclosing branch counting the else jump).
+       F138: exit repeat is a direct statement of a tell block (the block's statements are a list of their own: F23's situation)."""
     out = set()
 
     def walk(items, ctx, fixed, ifdepth=0, rescanned=False):
@@ -890,6 +893,8 @@ def c03_classes(stmts):
             if isinstance(it, _X):
                 if ctx == "loop":
                     out.add("F23")
+                elif ctx == "tell":
+                    out.add("F138")
                 elif it in fixed or (ctx == "then" and i == n - 1):
                     pass
                 elif ctx == "else":
@@ -898,7 +903,7 @@ def c03_classes(stmts):
                     out.add("F126")
             elif it != "s":
                 k = it[0]
-                if k in ("if", "ifelse") and not (ctx == "loop" and rescanned):
+                if k in ("if", "ifelse") and not (ctx in ("loop", "tell") and rescanned):
                     if any((not isinstance(e, _X)) and e != "s" and e[0] == "if" and _c03_last_is_exit(e) for e in items[:i]):
                         out.add("F24")
                 if k == "if":
@@ -915,6 +920,9 @@ def c03_classes(stmts):
                     if len(f) >= 2 and isinstance(f[-2], _X):
                         fx2.add(f[-2])
                     walk(it[2], "else", fx2, ifdepth + 1, rescanned)
+                elif k == "tell":
+                    # the statements of a tell block are a list of their own (scanned like a loop body, with the enclosing loop)
+                    walk(it[1], "tell", set(), 0, rescanned or ifdepth > 0)
                 else:
                     walk(it[1], "loop", set(), 0, rescanned or ifdepth > 0)
     walk(_c03_box(stmts), "top", set())
